@@ -246,10 +246,10 @@ where
                                     return Ok(Some(right));
                                 }
                             }
-                            t => Err(format!("Association created with non-symbol type {:?} on pair left.", t))?,
+                            _ => (), // pair keyed by something other than a symbol, cannot match
                         }
                     }
-                    t => Err(format!("Association created with non-pair type {:?}.", t))?,
+                    _ => (), // unkeyed item, cannot match
                 },
             }
             
